@@ -54,10 +54,15 @@ theorem c07u_advValueToks_map (q : List Tok) : advValueToks (q.map f) = (advValu
   rw [c07u_lockRest_map f hf, c07u_dropWhile_map f hf (fun k => isWsComment k),
     c07u_takeWhile_map f hf (fun k => k != .word)]
 
+theorem c07u_find_map (p : TK → Bool) (ts : List Tok) :
+    (ts.map f).find? (fun t => p t.kind) = (ts.find? (fun t => p t.kind)).map f := by
+  rw [List.find?_map, c07u_comp_kind f hf]
+
 theorem c07u_advNone_map (q : List Tok) : advNone (q.map f) = advNone q := by
-  unfold advNone
-  rw [c07u_any_map f hf (fun k => k == .percent), c07u_advValueToks_map f hf, List.getLast?_map]
-  cases (advValueToks q).getLast? with
+  unfold advNone advSepTok
+  rw [c07u_any_map f hf (fun k => k == .percent), c07u_advValueToks_map f hf, ← List.map_reverse,
+    c07u_find_map f hf (fun k => k != .blockComment)]
+  cases (advValueToks q).reverse.find? (fun t => t.kind != .blockComment) with
   | none => rfl
   | some t => simp only [Option.map_some, hf]
 
